@@ -39,13 +39,15 @@ class Cursor:
     def next(self, ctx):
         g = ctx.ghost['ct']
         if self.o.kind == 'txnseq':
-            t = ctx.new_obj('recseq', None, {'tid': ctx.fresh_opaque('tid'), 'status': ctx.fresh_opaque('status')},
+            tid = ctx.fresh_bytes(8, 'tid') if g.get('bytes_tids') else ctx.fresh_opaque('tid')
+            t = ctx.new_obj('recseq', None, {'tid': tid, 'status': ctx.fresh_opaque('status')},
                             {'name': 'transaction'})
             g['trans'] = t
             g['tstate'] = 'new'
             return t
         r = ctx.new_obj('record', None, {'oid': ctx.fresh_opaque('oid'), 'tid': ctx.fresh_opaque('rtid'),
-                                         'data': ctx.fresh_opaque('data'), 'data_txn': ctx.fresh_opaque('data_txn')},
+                                         'data': ctx.fresh_opaque('data'), 'data_txn': ctx.fresh_opaque('data_txn'),
+                                         'version': VStr('')},
                         {'name': 'record', 'of': self.o})
         g['record'] = r
         g['rstate'] = 'pending'
